@@ -25,6 +25,7 @@ func propC02(c *Ctx) propInfo {
 	c.floor("E7.pruned-accessors", 4)
 	c.tailZero()
 	c.hashStoreReaders()
+	c.levelMaskAlgebra()
 	c.maskPropagation()
 	return propInfo{
 		explanation: "Static structural clauses of C02 (DESIGN.md §4 C02): nothing reachable from the hashing functions reads a read-cursor or writes a field of the cell being hashed; every public hash entry point reaches the one implementation (newImmutableCell) and differs only in the cache passed; in the per-level loop the descriptor and the mask-dependent representation take their mask from mask.Apply(level) of the loop level, the preimage is written in the order representation|previous hash, all child depths (2 bytes big-endian), all child hashes, with the child level shifted exactly for the two Merkle types; the depth limit dominates the append of a depth; pruned-branch accessors use strides 32 and 2 from base 2. Decides these necessary conditions, not the level-mask arithmetic nor numeric hash values. Also the zero-tail invariant of bit strings (every bulk copy into a BitString buffer clones a whole buffer, sets a byte-aligned length or masks the last byte), on which the raw-buffer representation relies.",
@@ -533,4 +534,97 @@ func (c *Ctx) hashStoreReaders() {
 	}
 	c.floor(R, 4)
 	_ = n
+}
+
+// levelMaskAlgebra: the four level-mask functions in their defining forms (TON: a level mask has one
+// bit per significant level 1..3). Each rule accepts the usual equivalent spellings and rejects forms
+// that compute a different function for masks with a gap (0b10, 0b101):
+//   Level         = bit length of m          (32-LeadingZeros32 / bits.Len32)
+//   HashIndex     = number of set bits       (OnesCount)
+//   Apply(l)      = m & ((1<<l)-1)
+//   IsSignificant = l == 0 || bit l-1 of m   (a single-bit test: x%2, x&1, m&(1<<k))
+func (c *Ctx) levelMaskAlgebra() {
+	const R = "E11.level-mask"
+	callsAny := func(f *ssa.Function, qs ...string) bool {
+		for _, q := range qs {
+			if len(callsTo(f, q)) > 0 {
+				return true
+			}
+		}
+		return false
+	}
+	if f := c.mustFn(R, "boc", "levelMask.Level"); f != nil {
+		c.check(callsAny(f, "math/bits.LeadingZeros32", "math/bits.Len32", "math/bits.Len", "math/bits.LeadingZeros"), R, "Level = bit length of the mask", f.Pos(), "32 - LeadingZeros32(m)", "levelMask.Level is no longer the bit length of the mask")
+	}
+	if f := c.mustFn(R, "boc", "levelMask.HashIndex"); f != nil {
+		c.check(callsAny(f, "math/bits.OnesCount32", "math/bits.OnesCount") && !callsAny(f, "math/bits.LeadingZeros32", "math/bits.Len32"), R, "HashIndex = number of set bits", f.Pos(), "OnesCount32(m)", "levelMask.HashIndex is no longer the number of set bits of the mask (the index of a level's hash among the stored hashes)")
+	}
+	if f := c.mustFn(R, "boc", "levelMask.Apply"); f != nil {
+		okv := false
+		allInstrs(f, func(_ *ssa.BasicBlock, in ssa.Instruction) {
+			bo, ok := in.(*ssa.BinOp)
+			if !ok || bo.Op != token.AND {
+				return
+			}
+			for _, side := range []ssa.Value{bo.X, bo.Y} {
+				if sub, ok := stripConv(side).(*ssa.BinOp); ok && sub.Op == token.SUB {
+					if k, ok := constInt(sub.Y); ok && k == 1 {
+						if sh, ok := stripConv(sub.X).(*ssa.BinOp); ok && sh.Op == token.SHL {
+							if k1, ok := constInt(sh.X); ok && k1 == 1 && derivesFrom(sh.Y, func(v ssa.Value) bool { return v == ssa.Value(f.Params[1]) }, false) {
+								okv = true
+							}
+						}
+					}
+				}
+			}
+		})
+		c.check(okv, R, "Apply(level) keeps the bits below level: m & ((1<<level)-1)", f.Pos(), "m & ((1 << level) - 1)", "levelMask.Apply is no longer m & ((1<<level)-1)")
+	}
+	if f := c.mustFn(R, "boc", "levelMask.IsSignificant"); f != nil {
+		// a single-bit test of a value derived from m and level
+		single := false
+		allInstrs(f, func(_ *ssa.BasicBlock, in ssa.Instruction) {
+			bo, ok := in.(*ssa.BinOp)
+			if !ok {
+				return
+			}
+			fromBoth := func(v ssa.Value) bool {
+				ls := strings.Join(leaves(v), ",")
+				return strings.Contains(ls, "m") && strings.Contains(ls, "level")
+			}
+			switch bo.Op {
+			case token.REM:
+				if k, ok := constInt(bo.Y); ok && k == 2 && fromBoth(bo.X) {
+					single = true
+				}
+			case token.AND:
+				if k, ok := constInt(bo.Y); ok && k == 1 && fromBoth(bo.X) {
+					single = true
+				}
+				if k, ok := constInt(bo.X); ok && k == 1 && fromBoth(bo.Y) {
+					single = true
+				}
+				for _, pr := range [][2]ssa.Value{{bo.X, bo.Y}, {bo.Y, bo.X}} {
+					if sh, ok := stripConv(pr[1]).(*ssa.BinOp); ok && sh.Op == token.SHL {
+						if k1, ok := constInt(sh.X); ok && k1 == 1 {
+							single = true
+						}
+					}
+				}
+			}
+		})
+		// level 0 is always significant
+		zero := false
+		for _, b := range f.Blocks {
+			if iff := lastIf(b); iff != nil {
+				if bo, ok := iff.Cond.(*ssa.BinOp); ok && bo.Op == token.EQL && bo.X == ssa.Value(f.Params[1]) {
+					if k, ok := constInt(bo.Y); ok && k == 0 {
+						zero = true
+					}
+				}
+			}
+		}
+		c.check(single && zero, R, "IsSignificant(level) = level == 0 || bit level-1 of the mask", f.Pos(), "single-bit test of m >> (level-1)", "levelMask.IsSignificant no longer tests exactly one bit of the mask (forms like 'any bit at or above' or 'any bit below' agree with it only for masks without a gap): cells with mask 0b10 or 0b101 get an extra or a missing hash and a wrong descriptor byte")
+	}
+	c.floor(R, 4)
 }
